@@ -7,69 +7,6 @@ From Mesa Require Import Common.ListX Model.Registry Proofs.RegistryProofs.
 Import ListNotations.
 Open Scope Z_scope.
 
-(* ---------- properties preserved by the two atomic actions are preserved by everything built from them ---------- *)
-Section Closure.
-  Variable P : world -> Prop.
-  Hypothesis P_init : forall w m c p, P w -> P (fst (agent_init w m c p)).
-  Hypothesis P_dereg : forall w k, P w -> P (fst (deregister_obj w k)).
-
-  Lemma P_create_loop m c f n is : forall w, P w -> P (fst (create_loop w m c f n is)).
-  Proof.
-    induction is as [|i t IH]; intros w HP; simpl; [exact HP|].
-    pose proof (P_init w m c (pay_at f n i) HP) as H1.
-    destruct (agent_init w m c (pay_at f n i)) as [w1 [k|]]; cbn [fst] in H1.
-    - specialize (IH w1 H1). destruct (create_loop w1 m c f n t) as [w2 ks]. exact IH.
-    - apply IH. exact H1.
-  Qed.
-
-  Lemma P_fold_remove l : forall w, P w -> P (fold_left agent_remove l w).
-  Proof.
-    induction l as [|k t IH]; intros w HP; simpl; [exact HP|]. apply IH. apply P_dereg. exact HP.
-  Qed.
-
-  Lemma P_remove_all w m : P w -> P (remove_all w m).
-  Proof.
-    intros HP. unfold remove_all. destruct (getm (w_models w) m); [|exact HP]. apply P_fold_remove. exact HP.
-  Qed.
-
-  Lemma P_exec_act w self a : P w -> P (exec_act w self a).
-  Proof.
-    intros HP. destruct a; simpl; try exact HP.
-    - apply P_dereg. exact HP.
-    - apply P_dereg. exact HP.
-    - apply P_init. exact HP.
-    - apply P_create_loop. exact HP.
-    - apply P_remove_all. exact HP.
-  Qed.
-
-  Lemma P_activate_loop s order : forall w, P w -> P (activate_loop w order s).
-  Proof.
-    unfold activate_loop. induction order as [|k t IH]; intros w HP; simpl; [exact HP|].
-    apply IH. apply P_exec_act. exact HP.
-  Qed.
-
-  (* NewModel and the two reorders only replace w_models *)
-  Definition structural (o : op) : bool :=
-    match o with NewModel | ReorderAll _ _ | ReorderType _ _ _ => true | _ => false end.
-
-  Lemma P_step_op w o : structural o = false -> P w -> P (fst (step_op w o)).
-  Proof.
-    intros Hs HP. destruct o as [|m c v|m c n f|k|k|m|m order|m c order|m c shuf s]; simpl in *; try discriminate.
-    - pose proof (P_init w m c (PInt v) HP) as H. destruct (agent_init w m c (PInt v)) as [w' [k|]]; exact H.
-    - destruct (getm (w_models w) m); [|exact HP].
-      pose proof (P_create_loop m c f n (seq 0 (Z.to_nat n)) w HP) as H. unfold create_agents.
-      destruct (create_loop w m c f n (seq 0 (Z.to_nat n))) as [w' ks]. exact H.
-    - pose proof (P_dereg w k HP) as H. destruct (deregister_obj w k) as [w' [b|]]; exact H.
-    - pose proof (P_dereg w k HP) as H. destruct (deregister_obj w k) as [w' [[|]|]]; exact H.
-    - destruct (getm (w_models w) m); [|exact HP]. apply P_remove_all. exact HP.
-    - destruct (getm (w_models w) m) as [ms|]; [|exact HP].
-      destruct (match c with Some c' => bt_get c' (m_bt ms) | None => Some (m_all ms) end) as [snap|]; [|exact HP].
-      destruct shuf as [p|].
-      + destruct (is_perm p snap); [|exact HP]. apply P_activate_loop. exact HP.
-      + apply P_activate_loop. exact HP.
-  Qed.
-End Closure.
-
 (* ---------- the logs are append-only ---------- *)
 Definition extends (w w' : world) : Prop :=
   (exists ext, w_born w' = w_born w ++ ext) /\ (exists ext, w_removed w' = ext ++ w_removed w).
@@ -109,6 +46,10 @@ Proof.
     + destruct (getm (w_models w) m) as [ms|]; [|apply extends_refl].
       destruct (bt_get c (m_bt ms)); [|apply extends_refl].
       destruct (is_perm order l); [apply extends_set_models|apply extends_refl].
+    + destruct (getm (w_models w) m) as [ms|]; [|apply extends_refl].
+      destruct (zmem k (m_all ms)); [apply extends_set_models|apply extends_refl].
+    + destruct (getm (w_models w) m) as [ms|]; [|apply extends_refl].
+      destruct (is_subseq keep (m_all ms)); [apply extends_set_models|apply extends_refl].
   - apply (P_step_op (extends w)); [apply extends_init|apply extends_dereg|exact E|apply extends_refl].
 Qed.
 
@@ -157,9 +98,19 @@ Proof.
   intros Hr H. unfold step. destruct (step_op w o) as [w' r] eqn:Es. cbn [fst].
   assert (w' = fst (step_op w o)) as -> by (rewrite Es; reflexivity). clear Es r.
   destruct (structural o) eqn:E.
-  - destruct o; simpl in E, Hr; try discriminate. simpl.
-    intros j msj Hg. cbn [set_models w_models] in Hg. apply getm_app_new in Hg.
-    destruct Hg as [Hg|[_ ->]]; [exact (H j msj Hg)|reflexivity].
+  - destruct o; simpl in E, Hr; try discriminate; simpl.
+    + intros j msj Hg. cbn [set_models w_models] in Hg. apply getm_app_new in Hg.
+      destruct Hg as [Hg|[_ ->]]; [exact (H j msj Hg)|reflexivity].
+    + destruct (getm (w_models w) m) as [ms|] eqn:Eg; [|exact H].
+      destruct (zmem k (m_all ms)); [|exact H]. cbn [fst].
+      intros j msj Hg. cbn [set_models w_models] in Hg. destruct (Z.eq_dec j m) as [->|Hne].
+      * rewrite (getm_setm_same _ _ _ _ Eg) in Hg. inversion Hg. cbn [with_all_only m_reord]. exact (H m ms Eg).
+      * rewrite (getm_setm_other _ _ _ _ _ Eg Hne) in Hg. exact (H j msj Hg).
+    + destruct (getm (w_models w) m) as [ms|] eqn:Eg; [|exact H].
+      destruct (is_subseq keep (m_all ms)); [|exact H]. cbn [fst].
+      intros j msj Hg. cbn [set_models w_models] in Hg. destruct (Z.eq_dec j m) as [->|Hne].
+      * rewrite (getm_setm_same _ _ _ _ Eg) in Hg. inversion Hg. cbn [with_all_only m_reord]. exact (H m ms Eg).
+      * rewrite (getm_setm_other _ _ _ _ _ Eg Hne) in Hg. exact (H j msj Hg).
   - apply (P_step_op no_reord); [apply no_reord_init|apply no_reord_dereg|exact E|exact H].
 Qed.
 
@@ -179,23 +130,23 @@ Qed.
 
 Theorem thm_creation_order n ops m ms :
   let w := final (init n) ops in
-  forallb (fun o => negb (is_reorder o)) ops = true ->
+  setapi_free ops = true -> forallb (fun o => negb (is_reorder o)) ops = true ->
   getm (w_models w) m = Some ms ->
   m_all ms = live m (w_born w) (w_removed w) /\
   forall c l, bt_get c (m_bt ms) = Some l -> l = live_cls m c (w_born w) (w_removed w).
 Proof.
-  intros w Hn Hg.
+  intros w Hfree Hn Hg.
   assert (m_reord ms = false) as Hr.
   { apply (no_reord_final ops (init n) Hn (no_reord_init_world n) m ms Hg). }
   split.
-  - apply (thm_agents_exact n ops m ms Hg). exact Hr.
+  - apply (thm_agents_exact n ops m ms Hg Hfree). exact Hr.
   - intros c l Hc. pose proof (thm_by_type_exact n ops m ms Hg c) as Hb. fold w in Hb. rewrite Hc in Hb.
     apply Hb. exact Hr.
 Qed.
 
 (* ---------- an activation whose callbacks keep away from model j leaves model j alone ---------- *)
 Section ActFrame.
-  Variables (w0 : world) (j : Z).
+  Variables (st : bool) (w0 : world) (j : Z).
 
   (* removing the agent with this key cannot touch model j: it is not one of j's agents *)
   Definition safe_key (k : Z) : Prop := forall a, In a (w_born w0) -> a_key a = k -> a_model a <> j.
@@ -209,7 +160,7 @@ Section ActFrame.
     end.
 
   Definition Q (w : world) : Prop :=
-    Inv w /\ getm (w_models w) j = getm (w_models w0) j /\
+    Inv st w /\ getm (w_models w) j = getm (w_models w0) j /\
     (forall a, In a (w_born w) -> In a (w_born w0) \/ a_model a <> j).
 
   Lemma Q_init w m c p : m <> j -> Q w -> Q (fst (agent_init w m c p)).
@@ -242,7 +193,7 @@ Section ActFrame.
   Lemma Q_remove_all w m : m <> j -> Q w -> Q (remove_all w m).
   Proof.
     intros Hne [HI [Hg Hb]]. split; [apply remove_all_inv; exact HI|]. split.
-    - rewrite remove_all_frame; [exact Hg|exact HI|congruence].
+    - rewrite (remove_all_frame st); [exact Hg|exact HI|congruence].
     - unfold remove_all. destruct (getm (w_models w) m); [|exact Hb]. rewrite fold_remove_born. exact Hb.
   Qed.
 
@@ -266,17 +217,17 @@ Section ActFrame.
   Qed.
 End ActFrame.
 
-Theorem thm_frame_activation w m c shuf s j :
-  Inv w -> (forall k, act_safe w j k (script_get k s)) ->
+Theorem thm_frame_activation st w m c shuf s j :
+  Inv st w -> (forall k, act_safe w j k (script_get k s)) ->
   getm (w_models (fst (step w (Activate m c shuf s)))) j = getm (w_models w) j.
 Proof.
   intros HI Hs.
-  assert (Q w j w) as HQ by (split; [exact HI|split; [reflexivity|intros a Ha; left; exact Ha]]).
+  assert (Q st w j w) as HQ by (split; [exact HI|split; [reflexivity|intros a Ha; left; exact Ha]]).
   unfold step. simpl.
   destruct (getm (w_models w) m) as [ms|]; [|reflexivity].
   destruct (match c with Some c' => bt_get c' (m_bt ms) | None => Some (m_all ms) end) as [snap|]; [|reflexivity].
   destruct shuf as [p|].
   - destruct (is_perm p snap); [|reflexivity]. cbn [fst].
-    apply (Q_loop w j s p (fun k _ => Hs k) w HQ).
-  - cbn [fst]. apply (Q_loop w j s snap (fun k _ => Hs k) w HQ).
+    apply (Q_loop st w j s p (fun k _ => Hs k) w HQ).
+  - cbn [fst]. apply (Q_loop st w j s snap (fun k _ => Hs k) w HQ).
 Qed.
